@@ -53,6 +53,10 @@ end
 
 /-! Simp lemmas that turn the class operations at `ℝ` into Mathlib's. -/
 
+/-- Scientific literals of the model, read at `ℝ`, are Mathlib's scientific literals. -/
+@[simp] theorem real_sci (m : ℕ) (s : Bool) (e : ℕ) :
+    @OfScientific.ofScientific ℝ instScReal.toOfScientific m s e = (OfScientific.ofScientific m s e : ℝ) := rfl
+
 @[simp] theorem real_ofNat (n : ℕ) : (Sc.ofNat n : ℝ) = (n : ℝ) := rfl
 @[simp] theorem real_lit (n : ℕ) : (@OfNat.ofNat ℝ n instOfNatSc) = (n : ℝ) := rfl
 @[simp] theorem real_abs (x : ℝ) : Sc.abs x = |x| := rfl
@@ -67,6 +71,10 @@ end
 @[simp] theorem real_cos (x : ℝ) : ScT.cos x = Real.cos x := rfl
 @[simp] theorem real_pow (x y : ℝ) : ScT.pow x y = x ^ y := rfl
 @[simp] theorem real_pi : (ScT.pi : ℝ) = Real.pi := rfl
+/-- Normalise every class operation and literal of the model at `ℝ` to Mathlib's. -/
+macro "sc_norm" : tactic => `(tactic| simp only [real_sci, real_lit, real_ofNat, real_abs, real_fmin, real_fmax,
+  real_isNaN, real_isFinite, real_floor, real_sqrt, real_exp, real_sin, real_cos, real_pow, real_pi] at *)
+
 theorem real_feq (x y : ℝ) : Sc.feq x y = true ↔ x = y := by
   show @decide (x = y) (Classical.propDecidable _) = true ↔ _
   simp
@@ -85,6 +93,8 @@ instance : ScOrd ℝ where
   not_nan_of_le := fun _ => ⟨rfl, rfl⟩
   not_nan_of_lt := fun _ => ⟨rfl, rfl⟩
   le_antisymm_feq := fun h1 h2 => (real_feq _ _).mpr (le_antisymm h1 h2)
+  feq_le := fun h => le_of_eq ((real_feq _ _).mp h)
+  feq_ge := fun h => le_of_eq ((real_feq _ _).mp h).symm
   fmin_def a b := by
     simp only [real_fmin, real_isNaN, Bool.false_eq_true, if_false]
     split
@@ -95,8 +105,8 @@ instance : ScOrd ℝ where
     split
     · next h => exact max_eq_right (le_of_lt h)
     · next h => exact max_eq_left (not_lt.mp h)
-  le_0_1 := by simp
-  le_0_255 := by simp
+  le_0_1 := by show ((0:ℕ):ℝ) ≤ ((1:ℕ):ℝ); norm_num
+  le_0_255 := by show ((0:ℕ):ℝ) ≤ ((255:ℕ):ℝ); norm_num
   finite_0 := rfl
   isFinite_not_nan := fun _ _ => rfl
 
